@@ -117,7 +117,8 @@ def bc_table(chk, repo, d, eq):
         raise AnalysisError('cf_radial_solver: boundary-condition table (if solve_for is None) not found')
     l = X.atom('l', 'pos'); R = X.atom('R_planet', 'pos'); rho = X.atom('rho_bulk', 'pos')
     ref = {'tidal': (X.ZERO, X.ZERO, (2 * l + 1) / R), 'loading': (-(2 * l + 1) * rho / 3, X.ZERO, (2 * l + 1) / R), 'free': (X.ZERO, X.ZERO, X.ZERO)}
-    it = Interp(repo)
+    from .common import local_atoms_hook
+    it = Interp(repo, hooks={'global': local_atoms_hook(ms, f)})
 
     def run_with(solve_for):
         fr = Frame(ms, 'cf_radial_solver')
